@@ -279,8 +279,9 @@ macro_rules! drive {
             3 => { $out.fin_ran = true; if let Some($x) = it.nth(1) { let y = $conv; $out.fin_items.push(y); } if $forget { std::mem::forget(it); } }
             4 => { $out.fin_ran = true; if let Some($x) = it.nth_back(1) { let y = $conv; $out.fin_items.push(y); } if $forget { std::mem::forget(it); } }
             5 => { $out.fin_ran = true; $out.fin_hint = it.size_hint(); if $forget { std::mem::forget(it); } }
-            6 => { $out.fin_ran = true; let mut acc = Vec::new(); it.fold((), |_, $x| { let y = $conv; acc.push(y); }); $out.fin_items = acc; }
-            7 => { $out.fin_ran = true; let mut acc = Vec::new(); it.rev().fold((), |_, $x| { let y = $conv; acc.push(y); }); $out.fin_items = acc; }
+            // (a runaway traversal must not eat the machine: far more items than any cache here holds is a failure in itself)
+            6 => { $out.fin_ran = true; let mut acc = Vec::new(); it.fold((), |_, $x| { let y = $conv; acc.push(y); if acc.len() > 200_000 { panic!("runaway iteration: fold yielded more than 200000 items"); } }); $out.fin_items = acc; }
+            7 => { $out.fin_ran = true; let mut acc = Vec::new(); it.rev().fold((), |_, $x| { let y = $conv; acc.push(y); if acc.len() > 200_000 { panic!("runaway iteration: rev().fold yielded more than 200000 items"); } }); $out.fin_items = acc; }
             _ => { if $forget { std::mem::forget(it); } }
         }
     }};
